@@ -704,6 +704,9 @@ func cmdReplay(args []string) int {
 		fmt.Println(tail(out, 3000))
 		return 3
 	}
+	if os.Getenv("GOSYM_REPLAY_VERBOSE") != "" {
+		fmt.Println(out)
+	}
 	r := rr[path]
 	fmt.Printf("replay %s: harness=%s.%s label=%s native=%s %s\n", path, c.Pkg, c.Harness, c.Label, r.Status, r.Detail)
 	if r.Status == "FAIL" {
